@@ -90,6 +90,30 @@ def run(rep, tier, seed, replay=None):
                 break
         if len(lo) < len(zc):
             rep.violation("C01: the library crashed building a dataset with default zero counts: %s" % ctx.sanitizer_summary(), {"kind": "codec", "case": zc[len(lo)][1], "lazy": True})
+    # integer-stored elements of 32 bits (0 33 195/196 flag tables; 31-bit elements widened by 2 01 YYY): kept out of the
+    # generated stream (gen.INT_LIMIT) and probed here, because the library keeps them in an int32_t whose -1 means missing
+    if not replay or replay.get("probe32"):
+        kf = {f.get("match"): f for f in vlib.known_findings("C01")}
+        pl = []
+        for d in (33195, 33196):
+            if d in ctx.T.B and ctx.T.B[d]["width"] == 32:
+                for raw in (5, 0x7fffffff, 0x80000001, 0xfffffffe):
+                    pl.append("E 4 0 2 1001 %d 1 r3 r%x |" % (d, raw))
+        if replay:
+            pl = [replay["case"]]
+        po = ctx.run_c(pl)
+        pd = ctx.run_c(["D " + (codec.parse_c_listing(o)[0].get("msg") or "00") for o in po])
+        for l, o, dd in zip(pl, po, pd):
+            rep.count(("probe32", l)); feat["probe_32bit_integer_stored"] += 1
+            want = int(l.split()[-2][1:], 16)
+            h, subs = codec.parse_c_listing(dd)
+            got = [e.get("raw") for its in subs for e in codec.c_elements(its)][-1:] if h.get("rc") == "0" else None
+            if got != [want]:
+                text = "a 32-bit integer-stored element (%s) set to raw value %x is read back as %s" % (l.split()[5], want, ("%x" % got[0]) if got and got[0] is not None else "nothing")
+                if "int32_storage_32bit" in kf and want >= 2 ** 31:
+                    rep.finding(kf["int32_storage_32bit"]["what"])
+                else:
+                    rep.violation("C01: %s  [case: %s]" % (text, l), {"kind": "codec", "case": l, "probe32": True, "encode": o[:500], "decode": dd[:500]})
     if not proved and not rep.violations:
         rep.violation("C01: proof obligations no longer check and the correspondence run found no failing input", getattr(rep, "proof_broken", {}), no_input=True)
     rep.cov["traces_validated_against_impl"] = len(cases)
